@@ -319,6 +319,11 @@ class Gen:
                     a, b = b, a
                 return (["if", "("] + self.cond(scope) + [")", "{", s, op] + a + [";", "}", "else", "{", s, op] + b + [";", "}"] +
                         ["if", "(", s, "=="] + lit + [")"] + self.body_or_bare(scope, depth + 1, in_loop))
+        if m == 16 and r.chance(1, 4) and scope.all_vars():
+            # a constraint that mentions one local only (its value is an expression over signals)
+            v = r.choice(scope.all_vars())
+            self.hit("constraint-single-name")
+            return r.choice([[v, "===", ] + self.literal() + [";"], [v, "*", v, "===", v, ";"], self.literal() + ["===", v, ";"]])
         if m == 16:
             self.hit("constraint")
             return self.expr(scope, 1, True, ARITH) + ["==="] + self.expr(scope, 1, True, ARITH) + [";"]
